@@ -89,4 +89,22 @@ theorem C20_compound_converts (c : Cfg) (s : State) (word reading : Str) (rest :
   rw [hdict]
   exact C07.C07_registered_word_offered c.alpha s.dict ⟨word, reading, .noun .common⟩ tail ctx f n hn hd hne ha rfl
 
+
+/-- **What is learned about written forms does not decide whether a compound is learned.** Whatever the learned counts are
+— in particular when the compound's written form already has a count from an earlier confirmation of a homograph — the
+confirmation of an affixed candidate adds the same compound to the user dictionary and to the updater's queue. -/
+theorem C20_compound_regardless_of_counts (c : Cfg) (s : State) (f' : List FreqEntry) (sid : Nat) (cid : Option Nat) (now : Int) :
+    (confirm c { s with freq := f' } sid cid now).userDict = (confirm c s sid cid now).userDict ∧
+    (confirm c { s with freq := f' } sid cid now).pending = (confirm c s sid cid now).pending := by
+  unfold confirm popSession
+  cases hs : s.sessions.find? (·.sid == sid) with
+  | none => simp [hs]
+  | some sess =>
+    simp only [hs]
+    cases hc : (cid.bind fun i => sess.cands[i]?) with
+    | none => simp
+    | some cand =>
+      simp only
+      cases independentWord cand.chain <;> cases withAffix cand.chain <;> simp
+
 end Chokan.Props.C20
